@@ -25,7 +25,7 @@ def main():
         rc, o = sh('go build ./... && go test -vet=off -count=1 ./...', cwd=wt); res['suite_passes_with_change'] = (rc == 0)
         os.makedirs(wt + '/demo'); shutil.copy(demo, wt + '/demo/demo_test.go')
         rc, o = sh('go test -vet=off -count=1 ./demo/', cwd=wt); res['demo_fails_with_change'] = (rc != 0)
-        sh('git checkout -- .', cwd=wt)
+        sh('git checkout -- . && git clean -fdq -e demo', cwd=wt)
         rc, o = sh('go test -vet=off -count=1 ./demo/', cwd=wt); res['demo_passes_without_change'] = (rc == 0)
     finally:
         sh('git -C /repo worktree remove --force %s' % wt)
@@ -45,7 +45,7 @@ def main():
             detected[c] = {'exit': rc, 'violation_lines': v[:2], 'summary': o.strip().split('\n')[-1]}
             print(c, 'exit', rc, v[:1])
     finally:
-        sh('git -C /repo checkout -- .')
+        sh('git -C /repo checkout -- . && git -C /repo clean -fdq')
     d = '/verif/seeded/%s-%s' % (pid, letter)
     os.makedirs(d, exist_ok=True)
     shutil.copy(diff, d + '/patch.diff'); shutil.copy(demo, d + '/demo_test.go')
